@@ -442,17 +442,33 @@ func scriptKey(script string) string {
 }
 
 type solverSpec struct {
-	name string
-	cmd  func(file string, timeoutS int) []string
-	pre  string
+	name  string
+	cmd   func(file string, timeoutS int) []string
+	pre   string
+	xform func(script string) (string, bool) // rewrites the script for this member; false: the member does not take part
+}
+
+// somScript: quantifier-free goals are also tried with an explicit strategy: eliminate the defining equations of
+// the havoc variables (solve-eqs) and put polynomials into sum-of-monomials form before the SMT core runs. Ring
+// identities over callee results that were introduced by equations then close by normalisation alone (measured:
+// a degree-6 identity 0.03 s against a timeout of the default strategy).
+func somScript(script string) (string, bool) {
+	if strings.Contains(script, "forall") || strings.Contains(script, "exists") || strings.Contains(script, "define-fun-rec") || strings.Contains(script, "(lambda") {
+		return "", false
+	}
+	if !strings.Contains(script, "(check-sat)\n") {
+		return "", false
+	}
+	return strings.Replace(script, "(check-sat)\n", "(check-sat-using (then simplify solve-eqs (! simplify :som true) smt))\n", 1), true
 }
 
 var solvers = []solverSpec{
-	{"z3-new-5.1.0", func(f string, t int) []string { return []string{"z3-new", fmt.Sprintf("-T:%d", t), f} }, ""},
-	{"z3-4.8.12", func(f string, t int) []string { return []string{"z3", fmt.Sprintf("-T:%d", t), f} }, ""},
+	{"z3-new-5.1.0", func(f string, t int) []string { return []string{"z3-new", fmt.Sprintf("-T:%d", t), f} }, "", nil},
+	{"z3-4.8.12", func(f string, t int) []string { return []string{"z3", fmt.Sprintf("-T:%d", t), f} }, "", nil},
 	{"cvc5-1.0", func(f string, t int) []string {
 		return []string{"cvc5", "--lang=smt2", fmt.Sprintf("--tlimit=%d", t*1000), "--fmf-fun", f}
-	}, "(set-logic ALL)\n"},
+	}, "(set-logic ALL)\n", nil},
+	{"z3-4.8.12-som", func(f string, t int) []string { return []string{"z3", fmt.Sprintf("-T:%d", t), f} }, "", somScript},
 }
 
 var solverSem = make(chan struct{}, 14)
@@ -467,6 +483,13 @@ func runOne(ctx context.Context, sp solverSpec, script string, dir string, name 
 	fileSeq.Add(1)
 	fn := fmt.Sprintf("%s/q%d.%s.%s.smt2", dir, fileSeq.Load(), sanitize(name), sp.name)
 	txt := script
+	if sp.xform != nil {
+		t2, ok := sp.xform(script)
+		if !ok {
+			return SolverResult{Status: "cancelled", Solver: sp.name}
+		}
+		txt = t2
+	}
 	if sp.pre != "" {
 		// cvc5: produce-models must precede set-logic
 		if strings.Contains(txt, "(set-option :produce-models true)\n") {
@@ -579,8 +602,12 @@ func solve0(script, dir, name string, timeoutS int, only string) SolverResult {
 		go func(i int, sp solverSpec) {
 			defer wg.Done()
 			if i > 0 && only == "" {
+				delay := 1500 * time.Millisecond
+				if sp.xform != nil {
+					delay = 300 * time.Millisecond
+				}
 				select {
-				case <-time.After(1500 * time.Millisecond):
+				case <-time.After(delay):
 				case <-ctx.Done():
 					ch <- SolverResult{Status: "cancelled", Solver: sp.name}
 					return
